@@ -52,8 +52,8 @@ MANIFEST = {
             "sum of number x unit, for all values in the stated ranges.",
     "note": "CPython's datetime is C code: it is replaced by a term-level model (vf/sym/times.py, trusted, cross-checked against the C type on every constructed value). "
             "Calendar lemmas are proved by z3 over all 3.65 million days each run.",
-    "technique": "symbolic execution of the real Python byte-code with shadow builtins and a term-level datetime model + z3 (linear integer arithmetic with div/mod); counterexample replay",
-    "design_ref": "DESIGN.md §7 C11",
+    "technique": "symbolic execution of the real Python byte-code with shadow builtins and a term-level datetime model + z3 (linear integer arithmetic with div/mod; calendar lemmas per 400-year era) with cvc5 as second back end for the bit-vector/floating-point duration-getter queries; counterexample replay",
+    "design_ref": "DESIGN.md §7 C11, §10.2 (time model, exact rationals, cvc5 back end)",
 }
 
 E, O, D = z3.Int("e"), z3.Int("o"), z3.Int("d")
